@@ -49,7 +49,10 @@ def run(ctx):
         "SRV targets always arrive fully qualified (trailing dot), as the wire format delivers them",
         "lookup errors are SERVFAIL answers (immediate); time-outs are not exercised (no wall-clock dependence)",
         "where the Matrix specification is silent (SRV lookup failure, m.server that is no valid server name) any of the "
-        "outcomes next-step / :8448 / refusal resp. refusal / step 4 is accepted",
+        "outcomes next-step / :8448 / refusal resp. refusal / step 4 is accepted; likewise a well-known redirect to a good "
+        "document may be followed or ignored, SRV records of equal priority may come in either order, a negative max-age "
+        "may count as stale-at-once or as absent, and with several A records of which only some are permitted only the "
+        "safety half (no connection to a refused address) is checked",
         "real connections (Host/SNI per target, allow/deny end to end) are confined to 127.0.0.0/8; port 8448 and IPv6 "
         "literal targets are compared at the ResolveServer level only",
         "an IPv4-mapped IPv6 address is the IPv4 address it embeds; ranges of one family contain no address of the other",
